@@ -426,9 +426,12 @@ def new_ltf_plan(**args):
                 stage2 = True # Transition to stage 2 on the NEXT iteration
                 # Calculate alpha for the upcoming stage 2
                 pts_left = Jdes - j
+                dftlen = int(np.round(fs / fres_ideal)) # Use the ideal fres for this step
+                if dftlen_crossover == 0:
+                    # First step is already log-spaced: the crossover is this step
+                    dftlen_crossover = min(max(dftlen, Lmin), N)
                 if pts_left > 1:
                     alpha = np.log(Lmin / dftlen_crossover) / (pts_left - 1)
-                dftlen = int(np.round(fs / fres_ideal)) # Use the ideal fres for this step
             elif (freslim * fres_ideal)**0.5 > fresmin:
                 fres = (freslim * fres_ideal)**0.5
                 dftlen = int(np.round(fs / fres))
